@@ -361,6 +361,8 @@ impl<'a> Dec<'a> {
         l.p("hrd", hrd);
         l.p("alen", be16(b, o + 4));
         l.blob("addr", &b[o + 6..o + 14]);
+        // LINKTYPE_LINUX_SLL: "link-layer address length" octets of the 8 octet field are valid
+        l.blob("~saddr", &b[o + 6..o + 6 + (be16(b, o + 4) as usize).min(8)]);
         l.p("proto", proto);
         l.p("pkind", pkind);
         l.pu("~pay_off", o + 16);
